@@ -202,28 +202,16 @@ fn zstd_compress(_data: &[u8], _level: u32) -> io::Result<Cow<[u8]>> {
 // --------- lz4 ---------
 
 #[cfg(feature = "lz4")]
-fn lz4_decompress<R: io::Read>(data: R, out: &mut Vec<u8>) -> io::Result<()> {
+fn lz4_decompress<R: io::Read>(mut data: R, out: &mut Vec<u8>) -> io::Result<()> {
     use io::Read;
 
-    /// Retries the reads that report `io::ErrorKind::Interrupted`.
-    ///
-    /// The lz4_flex frame decoder forgets the part of the frame header it has already
-    /// consumed when its inner reader is interrupted, and then fails with a wrong magic
-    /// number once the read is retried from above.
-    struct RetryInterrupted<R>(R);
-
-    impl<R: io::Read> io::Read for RetryInterrupted<R> {
-        fn read(&mut self, buf: &mut [u8]) -> io::Result<usize> {
-            loop {
-                match self.0.read(buf) {
-                    Err(e) if e.kind() == io::ErrorKind::Interrupted => continue,
-                    result => return result,
-                }
-            }
-        }
-    }
-
-    lz4_flex::frame::FrameDecoder::new(RetryInterrupted(data)).read_to_end(out).map(drop)
+    // The compressed block is read entirely before being decoded: the lz4_flex frame decoder
+    // must not see the errors of the underlying reader as it forgets the header bytes it has
+    // already consumed when a read is interrupted, and takes an `UnexpectedEof` error for the
+    // regular end of the frame (silently truncating the block).
+    let mut input = Vec::new();
+    data.read_to_end(&mut input)?;
+    lz4_flex::frame::FrameDecoder::new(input.as_slice()).read_to_end(out).map(drop)
 }
 
 #[cfg(not(feature = "lz4"))]
